@@ -184,7 +184,8 @@ pub fn ser<G: SerdeGlue>(f: Fmt, raw: &Value) -> Option<SerObs> {
         pos_docs(f, p, || G::r_make(Conv::from_value(&stored)), &mut c);
         let br = one(&mut c);
         let back = bt.as_ref().ok().map(|bytes| de::<G>(f, p, bytes));
-        o.nested.push((p, bt, bi, br, back));
+        let inner_back = bi.as_ref().ok().map(|bytes| de_pos::<G::I>(f, p, bytes).map(|v| v.iter().map(|x| x.to_value()).collect::<Vec<Value>>()));
+        o.nested.push((p, bt, bi, br, back, inner_back));
     }
     Some(o)
 }
